@@ -5,6 +5,15 @@ package votingmachine
 // for a block, the configuration grows to n1 replicas, further genuine votes of distinct members
 // arrive one by one: a QC must be emitted exactly when the number of collected votes reaches
 // QuorumSize(n1), and the QC must verify at a replica that knows the n1 members.
+//
+// Stream "split" (equivocating proposer): two or three DIFFERENT blocks of one view reach the collector and the
+// votes of distinct replicas are split between them. The threshold applies to the votes FOR THE CERTIFIED
+// BLOCK: a QC for block X is emitted exactly when the number of distinct valid votes for X reaches QuorumSize(n),
+// it lists only voters of X and verifies with a real Authority. Every split a/b (a/b/c) with each part below the
+// quorum and the total at least the quorum, in several interleavings (one block after the other, both ways,
+// alternating, the quorum-th vote overall being for the minority block), followed where replicas are left by
+// further votes that do complete one block (votes counted for another block must not have been lost or
+// consumed), plus the control in which one block does get a quorum while the other collects votes too.
 
 import (
 	"context"
@@ -50,6 +59,11 @@ func TestVerifC20(t *testing.T) {
 	}
 	g := hotstuff.GetGenesis()
 	block := hotstuff.NewBlock(g.Hash(), hotstuff.NewQuorumCert(nil, 0, g.Hash()), &clientpb.Batch{Commands: []*clientpb.Command{{Data: []byte("c20")}}}, 3, 1)
+	// three different blocks of one and the same view (an equivocating proposer), for the split stream
+	var eq [3]*hotstuff.Block
+	for x := range eq {
+		eq[x] = hotstuff.NewBlock(g.Hash(), hotstuff.NewQuorumCert(nil, 0, g.Hash()), &clientpb.Batch{Commands: []*clientpb.Command{{Data: []byte{'e', 'q', byte('A' + x)}}}}, 4, 2)
+	}
 	mkAuth := func(id, n int) (*core.RuntimeConfig, *cert.Authority, *blockchain.Blockchain, *eventloop.EventLoop) {
 		cfg := core.NewRuntimeConfig(hotstuff.ID(id), keys[id], core.WithSyncVerification())
 		for j := 1; j <= n; j++ {
@@ -58,6 +72,9 @@ func TestVerifC20(t *testing.T) {
 		el := eventloop.New(logger, 1000)
 		bc := blockchain.New(el, logger, c20Sender{})
 		bc.Store(block)
+		for _, b := range eq {
+			bc.Store(b)
+		}
 		base, err := crypto.New(cfg, crypto.NameECDSA)
 		if err != nil {
 			t.Fatal(err)
@@ -139,5 +156,229 @@ func TestVerifC20(t *testing.T) {
 			}
 		}
 	}
-	v.Close("voting machine created on n0 replicas, k0 votes, membership grows to n1, votes one by one; non-trivial = growth with k0 > 0 at or just below the quorum")
+	c20SplitStream(t, v, maxN, logger, eq, mkAuth)
+	v.Close("voting machine created on n0 replicas, k0 votes, membership grows to n1, votes one by one; non-trivial = growth with k0 > 0 at or just below the quorum; stream split: one evaluation = one vote delivered while two or three blocks of one view collect votes of distinct replicas, k = the number of distinct valid votes for the voted block, emitted = a QC for that block came out at this vote (required: emitted <-> k >= QuorumSize(n); voting for a block stops once it has its QC)")
+}
+
+// c20SplitStream: see the file comment.
+func c20SplitStream(t *testing.T, v *verifOut, maxN int, logger logging.Logger, eq [3]*hotstuff.Block,
+	mkAuth func(id, n int) (*core.RuntimeConfig, *cert.Authority, *blockchain.Blockchain, *eventloop.EventLoop)) {
+	s := v.Stream("split", "thr_mismatches", 2000)
+	names := []string{"A", "B", "C"}
+	// genuine votes of every member for every block
+	var votes [3][]hotstuff.PartialCert
+	for x := range eq {
+		votes[x] = make([]hotstuff.PartialCert, maxN+1)
+	}
+	for i := 1; i <= maxN; i++ {
+		_, a, _, _ := mkAuth(i, maxN)
+		for x, b := range eq {
+			pc, err := a.CreatePartialCert(b)
+			if err != nil {
+				t.Fatal(err)
+			}
+			votes[x][i] = pc
+		}
+	}
+	type vote struct{ blk, voter int }
+	// run delivers the votes in order (a block that got its QC receives no further votes) and judges every delivery
+	run := func(n int, family string, seq []vote) {
+		q := hotstuff.QuorumSize(n)
+		cfg, auth, bc, el := mkAuth(1, n)
+		vs, err := protocol.NewViewStates(bc, auth)
+		if err != nil {
+			t.Fatal(err)
+		}
+		var qcs []hotstuff.QuorumCert
+		vm := New(logger, el, cfg, bc, auth, vs)
+		eventloop.Register(el, func(m hotstuff.NewViewMsg) {
+			if qc, ok := m.SyncInfo.QC(); ok {
+				qcs = append(qcs, qc)
+			}
+		})
+		_, verifier, _, _ := mkAuth(n, n)
+		voters := [3]map[hotstuff.ID]bool{{}, {}, {}}
+		done := [3]bool{}
+		var history []string
+		for _, vt := range seq {
+			if done[vt.blk] {
+				continue
+			}
+			before := len(qcs)
+			vm.CollectVote(hotstuff.VoteMsg{ID: hotstuff.ID(vt.voter), PartialCert: votes[vt.blk][vt.voter]})
+			for j := 0; j < 100 && el.Tick(context.Background()); j++ {
+			}
+			voters[vt.blk][hotstuff.ID(vt.voter)] = true
+			k := len(voters[vt.blk])
+			history = append(history, fmt.Sprintf("%d votes %s", vt.voter, names[vt.blk]))
+			emitted := false // a QC for the voted block
+			meta := map[string]any{"component": "votingmachine", "stream": "split", "n": n, "quorum": q, "family": family,
+				"votes_so_far": append([]string(nil), history...), "voted_block": names[vt.blk], "votes_for_that_block": k}
+			ok := true
+			for _, qc := range qcs[before:] {
+				x := -1
+				for y, b := range eq {
+					if qc.BlockHash() == b.Hash() {
+						x = y
+					}
+				}
+				if x == vt.blk {
+					emitted = true
+				}
+				kx := 0
+				if x >= 0 {
+					kx = len(voters[x])
+				}
+				meta["qc_for_block"], meta["qc_signers"] = x, qc.Signature().Participants().Len()
+				if x < 0 || kx < q {
+					ok = false
+					v.Oracle(false, "threshold:votingmachine:qc-below-quorum", fmt.Sprintf("n=%d, quorum %d: a QC was emitted for a block that has %d distinct valid votes (votes for other blocks of the same view were counted)", n, q, kx), meta)
+					continue
+				}
+				foreign := false
+				qc.Signature().Participants().ForEach(func(id hotstuff.ID) {
+					if !voters[x][id] {
+						foreign = true
+					}
+				})
+				if foreign || verifier.VerifyQuorumCert(qc) != nil {
+					ok = false
+					v.Oracle(false, "threshold:votingmachine:qc-rejected-by-verifier", fmt.Sprintf("n=%d: the QC for block %s lists a replica that did not vote for it, or does not verify: %v", n, names[x], verifier.VerifyQuorumCert(qc)), meta)
+				}
+				done[x] = true
+			}
+			meta["qc_emitted"] = emitted
+			if !emitted && k >= q {
+				ok = false
+				v.Oracle(false, "threshold:votingmachine:no-qc-at-quorum", fmt.Sprintf("n=%d: block %s has %d distinct valid votes, quorum %d, and no QC for it was emitted (its votes were lost to another block of the view?)", n, names[vt.blk], k, q), meta)
+			}
+			if ok {
+				v.Oracle(true, "", "", nil)
+			}
+			v.Seen(fmt.Sprintf("split/%d/%s/%v", n, family, history), k == q || k == q-1, meta)
+			v.Count("split:" + family)
+			v.Case(s, fmt.Sprintf("(%s,%s,%s)", gZ(int64(n)), gZ(int64(k)), gBool(emitted)), meta)
+		}
+	}
+	// orders of the votes of the parts (part x = the voters listed in parts[x], all voting block x)
+	orders := func(parts [][]int, q int) map[string][]vote {
+		out := map[string][]vote{}
+		var seqF, seqR, alt []vote
+		for x, p := range parts {
+			for _, i := range p {
+				seqF = append(seqF, vote{x, i})
+			}
+		}
+		for x := len(parts) - 1; x >= 0; x-- {
+			for _, i := range parts[x] {
+				seqR = append(seqR, vote{x, i})
+			}
+		}
+		for j := 0; ; j++ {
+			any := false
+			for x, p := range parts {
+				if j < len(p) {
+					alt = append(alt, vote{x, p[j]})
+					any = true
+				}
+			}
+			if !any {
+				break
+			}
+		}
+		out["one-after-the-other"], out["reverse"], out["alternating"] = seqF, seqR, alt
+		// the quorum-th vote overall is for the smallest part
+		small, big := 0, 0
+		for x, p := range parts {
+			if len(p) < len(parts[small]) {
+				small = x
+			}
+			if len(p) > len(parts[big]) {
+				big = x
+			}
+		}
+		if small != big {
+			var pre, rest []vote
+			for x, p := range parts {
+				for j, i := range p {
+					if x == small && j == 0 {
+						continue
+					}
+					if len(pre) < q-1 {
+						pre = append(pre, vote{x, i})
+					} else {
+						rest = append(rest, vote{x, i})
+					}
+				}
+			}
+			if len(pre) == q-1 {
+				m := append(append(pre, vote{small, parts[small][0]}), rest...)
+				out["quorum-th-vote-for-the-minority-block"] = m
+			}
+		}
+		return out
+	}
+	families := []string{"one-after-the-other", "reverse", "alternating", "quorum-th-vote-for-the-minority-block"}
+	for n := 4; n <= maxN; n++ {
+		q := hotstuff.QuorumSize(n)
+		mkParts := func(sizes ...int) ([][]int, int) {
+			next := 1
+			var parts [][]int
+			for _, sz := range sizes {
+				var p []int
+				for j := 0; j < sz; j++ {
+					p = append(p, next)
+					next++
+				}
+				parts = append(parts, p)
+			}
+			return parts, next
+		}
+		finish := func(seq []vote, next int, a int) []vote { // the replicas that are left vote block A
+			for i := next; i <= n && a < q; i++ {
+				seq = append(seq, vote{0, i})
+				a++
+			}
+			return seq
+		}
+		// two blocks: every split below the quorum with the total at least the quorum
+		for a := 1; a < q; a++ {
+			for b := 1; b < q; b++ {
+				if a+b < q || a+b > n {
+					continue
+				}
+				parts, next := mkParts(a, b)
+				for _, fam := range families {
+					if seq, ok := orders(parts, q)[fam]; ok {
+						run(n, fmt.Sprintf("two-blocks/%s", fam), finish(seq, next, a))
+					}
+				}
+			}
+		}
+		// three blocks
+		for a := 1; a < q; a++ {
+			for b := 1; b <= a; b++ {
+				for c := 1; c <= b; c++ {
+					if a+b+c < q || a+b+c > n {
+						continue
+					}
+					parts, next := mkParts(a, b, c)
+					for _, fam := range families {
+						if seq, ok := orders(parts, q)[fam]; ok && fam != "reverse" {
+							run(n, fmt.Sprintf("three-blocks/%s", fam), finish(seq, next, a))
+						}
+					}
+				}
+			}
+		}
+		// control: block A does get a quorum while block B collects votes too
+		for b := 1; b < q && q+b <= n; b++ {
+			parts, _ := mkParts(q, b)
+			for _, fam := range families {
+				if seq, ok := orders(parts, q)[fam]; ok {
+					run(n, fmt.Sprintf("control/%s", fam), seq)
+				}
+			}
+		}
+	}
 }
